@@ -1,1 +1,183 @@
 //! Hooks of group 'session' for the /verif machinery.
+//!
+//! Wrappers around `pub(crate)` / `cfg(test)`-only items that the session / token / validity
+//! checks (C32, C33, C34, C36, C49) need from outside the crate. Nothing here changes behaviour.
+use crate::credential::totp::{Totp, TotpAlgo, TotpDigits};
+use crate::credential::Credential;
+use crate::idm::delayed::DelayedAction;
+use crate::prelude::*;
+use crate::value::{Session, SessionState};
+use std::collections::BTreeMap;
+use time::OffsetDateTime;
+
+/// Non-blocking receive of one queued delayed action (as the test-only `IdmServerDelayed::try_recv`).
+pub fn delayed_try_recv(d: &mut IdmServerDelayed) -> Option<DelayedAction> {
+    d.async_rx.try_recv().ok()
+}
+
+/// Process one delayed action in its own write transaction (as the test-only
+/// `IdmServer::delayed_action`).
+pub async fn delayed_action(idms: &IdmServer, ct: Duration, da: DelayedAction) -> Result<bool, OperationError> {
+    let mut pw = idms.proxy_write(ct).await?;
+    pw.process_delayedaction(&da, ct).and_then(|_| pw.commit()).map(|()| true)
+}
+
+/// A password + TOTP credential (`append_totp` is crate-private). The TOTP secret is given by the
+/// caller, so the harness can compute codes with its own RFC 6238 implementation.
+pub fn credential_password_totp(
+    policy: &kanidm_lib_crypto::CryptoPolicy,
+    cleartext: &str,
+    secret: Vec<u8>,
+    step: u64,
+    ts: OffsetDateTime,
+) -> Result<Credential, OperationError> {
+    let totp = Totp::new(secret, step, TotpAlgo::Sha256, TotpDigits::Six);
+    Ok(Credential::new_password_only(policy, cleartext, ts)?.append_totp("totp".to_string(), totp, ts))
+}
+
+/// Plain view of one stored user-auth-token session.
+#[derive(Debug, Clone, PartialEq, Eq)]
+pub struct SessionView {
+    pub cred_id: Uuid,
+    /// None = never expires / revoked (see `revoked_at`)
+    pub expires_at: Option<OffsetDateTime>,
+    pub never_expires: bool,
+    /// Some(cid) when the session is `RevokedAt(cid)`
+    pub revoked_at: Option<Cid>,
+    pub issued_at: OffsetDateTime,
+    pub scope: SessionScope,
+}
+
+fn view(s: &Session) -> SessionView {
+    let (expires_at, never_expires, revoked_at) = match &s.state {
+        SessionState::ExpiresAt(t) => (Some(*t), false, None),
+        SessionState::NeverExpires => (None, true, None),
+        SessionState::RevokedAt(c) => (None, false, Some(c.clone())),
+    };
+    SessionView {
+        cred_id: s.cred_id,
+        expires_at,
+        never_expires,
+        revoked_at,
+        issued_at: s.issued_at,
+        scope: s.scope,
+    }
+}
+
+/// The stored `user_auth_token_session` map of an entry.
+pub fn uat_sessions(e: &EntrySealedCommitted) -> BTreeMap<Uuid, SessionView> {
+    e.get_ava_as_session_map(Attribute::UserAuthTokenSession)
+        .map(|m| m.iter().map(|(k, v)| (*k, view(v))).collect())
+        .unwrap_or_default()
+}
+
+/// Plain view of one stored OAuth2 session: (parent, revoked_at, expires_at, issued_at).
+#[derive(Debug, Clone, PartialEq, Eq)]
+pub struct Oauth2SessionView {
+    pub parent: Option<Uuid>,
+    pub expires_at: Option<OffsetDateTime>,
+    pub revoked_at: Option<Cid>,
+    pub issued_at: OffsetDateTime,
+    pub rs_uuid: Uuid,
+}
+
+pub fn oauth2_sessions(e: &EntrySealedCommitted) -> BTreeMap<Uuid, Oauth2SessionView> {
+    e.get_ava_as_oauth2session_map(Attribute::OAuth2Session)
+        .map(|m| {
+            m.iter()
+                .map(|(k, s)| {
+                    let (expires_at, revoked_at) = match &s.state {
+                        SessionState::ExpiresAt(t) => (Some(*t), None),
+                        SessionState::NeverExpires => (None, None),
+                        SessionState::RevokedAt(c) => (None, Some(c.clone())),
+                    };
+                    (
+                        *k,
+                        Oauth2SessionView {
+                            parent: s.parent,
+                            expires_at,
+                            revoked_at,
+                            issued_at: s.issued_at,
+                            rs_uuid: s.rs_uuid,
+                        },
+                    )
+                })
+                .collect()
+        })
+        .unwrap_or_default()
+}
+
+/// Ids of the stored API token sessions of an entry, with (issued_at, expiry, read_write).
+pub fn api_token_sessions(e: &EntrySealedCommitted) -> BTreeMap<Uuid, (OffsetDateTime, Option<OffsetDateTime>, bool)> {
+    e.get_ava_as_apitoken_map(Attribute::ApiTokenSession)
+        .map(|m| {
+            m.iter()
+                .map(|(k, t)| (*k, (t.issued_at, t.expiry, matches!(t.scope, ApiTokenScope::ReadWrite))))
+                .collect()
+        })
+        .unwrap_or_default()
+}
+
+/// Credential ids currently on the entry: (primary, passkeys, attested passkeys).
+pub fn credential_ids(e: &EntrySealedCommitted) -> (Option<Uuid>, Vec<Uuid>, Vec<Uuid>) {
+    let primary = e.get_ava_single_credential(Attribute::PrimaryCredential).map(|c| c.uuid);
+    let pk = e
+        .get_ava_passkeys(Attribute::PassKeys)
+        .map(|m| m.keys().copied().collect())
+        .unwrap_or_default();
+    let apk = e
+        .get_ava_attestedpasskeys(Attribute::AttestedPasskeys)
+        .map(|m| m.keys().copied().collect())
+        .unwrap_or_default();
+    (primary, pk, apk)
+}
+
+/// The account validity window stored on an entry.
+pub fn validity_window(e: &EntrySealedCommitted) -> (Option<OffsetDateTime>, Option<OffsetDateTime>) {
+    (
+        e.get_ava_single_datetime(Attribute::AccountValidFrom),
+        e.get_ava_single_datetime(Attribute::AccountExpire),
+    )
+}
+
+/// A stored session value (for histories that write session records directly, as the
+/// session-consistency unit tests do).
+pub fn session_value(
+    session_id: Uuid,
+    cred_id: Uuid,
+    expiry: Option<OffsetDateTime>,
+    issued_at: OffsetDateTime,
+    scope: SessionScope,
+) -> Value {
+    Value::Session(
+        session_id,
+        Session {
+            label: "verif".to_string(),
+            state: expiry.map(SessionState::ExpiresAt).unwrap_or(SessionState::NeverExpires),
+            issued_at,
+            issued_by: IdentityId::Internal(Uuid::nil()),
+            cred_id,
+            scope,
+            type_: crate::value::AuthType::Passkey,
+            ext_metadata: Default::default(),
+        },
+    )
+}
+
+/// The JWS/JWE library the server uses (so the harness names the very same types).
+pub use compact_jwt;
+
+/// Client auth info carrying one bearer token (the `From<JwsCompact>` impl is test-only).
+pub fn client_auth_bearer(token: compact_jwt::JwsCompact) -> ClientAuthInfo {
+    ClientAuthInfo::new(Source::Internal, None, Some(token), None)
+}
+
+/// Client auth info without any credential.
+pub fn client_auth_none() -> ClientAuthInfo {
+    ClientAuthInfo::new(Source::Internal, None, None, None)
+}
+
+/// Id of a credential (the field is crate-private).
+pub fn credential_uuid(c: &Credential) -> Uuid {
+    c.uuid
+}
